@@ -410,13 +410,24 @@ func (p *Plugin) sendSplit(left int, right int, begin []int, data []byte) (int, 
 				return statusCode, err
 			}
 
+			// An event that is too large on its own can't be delivered, but
+			// that must not keep the other half of the batch from being sent:
+			// the 413 is reported once the rest is done.
 			middle := (left + right) / 2
-			statusCode, err = p.sendSplit(left, middle, begin, data)
+			leftStatusCode, leftErr := p.sendSplit(left, middle, begin, data)
+			if leftErr != nil && leftStatusCode != http.StatusRequestEntityTooLarge {
+				return leftStatusCode, leftErr
+			}
+
+			statusCode, err = p.sendSplit(middle, right, begin, data)
 			if err != nil {
 				return statusCode, err
 			}
 
-			return p.sendSplit(middle, right, begin, data)
+			if leftErr != nil {
+				return leftStatusCode, leftErr
+			}
+			return http.StatusOK, nil
 		default:
 			return statusCode, err
 		}
